@@ -95,6 +95,22 @@ func (c *Conversation) verifySMP2(s1 *smp1State, msg smp2Message) error {
 		return newOtrError("Qb is an invalid group element")
 	}
 
+	if !isExponent(msg.d2) {
+		return newOtrError("D2 is an invalid exponent")
+	}
+
+	if !isExponent(msg.d3) {
+		return newOtrError("D3 is an invalid exponent")
+	}
+
+	if !isExponent(msg.d5) {
+		return newOtrError("D5 is an invalid exponent")
+	}
+
+	if !isExponent(msg.d6) {
+		return newOtrError("D6 is an invalid exponent")
+	}
+
 	if !verifyZKP(msg.d2, msg.g2b, msg.c2, 3, c.version) {
 		return newOtrError("c2 is not a valid zero knowledge proof")
 	}
